@@ -63,6 +63,13 @@ def machine_spec(svc_kind: str, root_svc: bool = False):
             ["FIN", [{"target": ["fin"], "actions": []}]],
             ["BAD", [{"target": ["bad"], "actions": []}]],
             ["SLOW", [{"target": None, "actions": [{"k": "user", "name": "slow"}]}]],
+            # stop() called from inside the macrostep, by a transition action, on the way into a state that
+            # owns a timer and a service; and from a targetless transition
+            ["STOPIN", [{"target": ["work"], "actions": [{"k": "user", "name": "stopself"}]}]],
+            ["STOPIN0", [{"target": None, "actions": [{"k": "user", "name": "stopself"}]}]],
+            # ... and followed, in the same action list, by actions that create resources
+            ["STOPIN2", [{"target": None, "actions": [{"k": "user", "name": "stopself"}, {"k": "raise", "event": "LATE", "delay": 60},
+                                                      {"k": "raw", "cfg": {"type": "spawn_kid"}}]}]],
         ]},
         {"key": "work", "kind": "atomic", "after": [[50, [{"target": ["idle"], "actions": []}]]],
          "invoke": [{"src": "svc", "id": "iw", "onDone": [{"target": ["idle"], "actions": []}]}],
@@ -81,12 +88,12 @@ def machine_spec(svc_kind: str, root_svc: bool = False):
         services["lateboom"] = {"k": "coro", "outcome": "raise", "ms": 120, "value": 0}
         root["invoke"] = [{"src": "lateboom", "id": "ilb"}]
     spec = {"id": "m", "root": root, "context": {"n": 0}, "maxIterations": 30, "tables": {}, "services": services,
-            "impls": {"slow": {"k": "slow", "ms": 30}}}
+            "impls": {"slow": {"k": "slow", "ms": 30}, "stopself": {"k": "stop_self"}}}
     finalize(spec)
     return spec
 
 
-EVENTS = ["GO", "SPAWN", "SPAWN2", "DSEND", "DSEND2", "FIN", "FIN", "BAD", "STOPWORK", "SLOW", "GO", "SPAWN", "PINGX"]
+EVENTS = ["STOPIN", "STOPIN0", "STOPIN2", "GO", "SPAWN", "SPAWN2", "DSEND", "DSEND2", "FIN", "FIN", "BAD", "STOPWORK", "SLOW", "GO", "SPAWN", "PINGX"]
 
 
 def plan(tier):
